@@ -14,6 +14,12 @@ func (s *Server) VerifHandleConnection(ctx context.Context, conn net.Conn) {
 	s.handleConnection(ctx, conn)
 }
 
+// VerifListenerLoop runs the server's real accept loop on a listener supplied
+// by the harness.
+func (s *Server) VerifListenerLoop(ctx context.Context, l net.Listener) {
+	s.listenerLoop(ctx, l)
+}
+
 // VerifLimitExceeded is the check the accept loop performs before it hands a
 // socket to handleConnection.
 func (s *Server) VerifLimitExceeded() bool {
